@@ -219,9 +219,10 @@ func (s LayoutStore) IndexDigests() []string {
 
 // Need is one required item of a closure.
 type Need struct {
-	Digest   string
-	Manifest bool
-	Why      string
+	Digest     string
+	Manifest   bool
+	Why        string
+	ReferrerOf string // set when the manifest is needed as a referrer of this subject
 }
 
 // WalkOpts select what belongs to the closure.
@@ -240,6 +241,7 @@ type WalkOpts struct {
 func Closure(src Store, root string, o WalkOpts) (needs []Need, tags map[string]string, bad []string) {
 	seen := map[string]bool{}
 	tags = map[string]string{}
+	refOf := ""
 	var visit func(d, why string, isRoot bool)
 	visit = func(d, why string, isRoot bool) {
 		if seen["m"+d] {
@@ -251,7 +253,8 @@ func Closure(src Store, root string, o WalkOpts) (needs []Need, tags map[string]
 			bad = append(bad, "source lacks manifest "+d+" ("+why+")")
 			return
 		}
-		needs = append(needs, Need{Digest: d, Manifest: true, Why: why})
+		needs = append(needs, Need{Digest: d, Manifest: true, Why: why, ReferrerOf: refOf})
+		refOf = ""
 		trusted := o.Trusted != nil && o.Trusted(d, isRoot)
 		if !trusted {
 			for _, r := range regmodel.ContentRefs(raw) {
@@ -280,7 +283,9 @@ func Closure(src Store, root string, o WalkOpts) (needs []Need, tags map[string]
 						continue
 					}
 				}
+				refOf = d
 				visit(rd, "referrer of "+short(d), false)
+				refOf = ""
 			}
 		}
 		if o.DigestTags {
